@@ -61,6 +61,9 @@ def normalize_index(index, ndim):
 
     norm_index = []
     for i in index:
+        if isinstance(i, np.ndarray) and i.ndim == 1:
+            # e.g., a boolean mask for one of the axes
+            i = i.tolist()
         if isinstance(i, (slice, int, list)):
             norm_index.append(i)
         elif i is np.newaxis:
